@@ -16,7 +16,7 @@
       builds its arrays by scattering, this file by gathering through the inverse
       placement; the correspondence (corr/Corr_C11.v) compares the two on every case. *)
 From Coq Require Import ZArith List Bool Arith.
-From Verif Require Import Base Cal Tables Period Np Group Param Engine.
+From Verif Require Import Base Cal Tables Period Np Group GroupSpec Param Engine.
 Import ListNotations.
 Open Scope nat_scope.
 
@@ -83,6 +83,11 @@ Definition merge_pop (f1 f2 g1 g2 : list nat) (p1 p2 : gpop) : gpop :=
 Definition permute (fp fg : list nat) (pp : popu) : popu := {| grp := place_pop fp fg (grp pp) |}.
 Definition merge (f1 f2 g1 g2 : list nat) (pp1 pp2 : popu) : popu :=
   {| grp := merge_pop f1 f2 g1 g2 (grp pp1) (grp pp2) |}.
+
+(** A role declared unique (max = 1) is held by at most one member of every group (what
+    SimulationBuilder enforces; group.value_from_person is specified for such populations). *)
+Definition roles_unique (p : gpop) : Prop :=
+  forall r, role_max (g_entity p) r = Some 1 -> role_unique_in p r.
 
 (** ** Inputs *)
 
